@@ -126,6 +126,34 @@ func c14r1(c *an.Ctx) {
 			c.Check(N > M, fmt.Sprintf("%s | LimitReader bound (%d) exceeds the tested limit (%d)", an.ShortFunc(fn), N, M), c.At(in), "",
 				fmt.Sprintf("io.LimitReader(r, %d) can never yield more than %d bytes, so the test len(data) > %d is dead: a request body over the limit is cut to the limit and accepted instead of rejected", N, N, M))
 			c.Check(M == maxSize, fmt.Sprintf("%s | the tested limit is maxSize", an.ShortFunc(fn)), c.At(in), "", "the limit differs from maxSize")
+			// the over-limit side of that test rejects: every way of returning on which len(data) > M is known carries an error
+			okRej, nOver := true, 0
+			var at ssa.Instruction
+			for _, rc := range an.ReturnCases(fn) {
+				if !retReachable(fn, rc.Ret) {
+					continue
+				}
+				over := false
+				for _, g := range rc.Guards {
+					if b, ok := g.Cond.(*ssa.BinOp); ok && b.Op == token.GTR && g.True && lenOperand(b.X) != nil {
+						if k, isK := an.ConstInt(b.Y); isK && k == M {
+							over = true
+						}
+					}
+				}
+				if !over {
+					continue
+				}
+				nOver++
+				if len(rc.Vals) == 0 || !provablyNonNilCase(rc.Vals[len(rc.Vals)-1], rc) {
+					okRej, at = false, rc.Ret
+				}
+			}
+			pos := c.At(in)
+			if at != nil {
+				pos = c.At(at)
+			}
+			c.Check(okRej && nOver > 0, an.ShortFunc(fn)+" | a body over the limit is an error", pos, "", "the function can return without an error on the side of the test where the body is known to exceed the limit: an oversize request is handed on (empty or truncated) instead of being rejected")
 		})
 	}
 	c.Floor("LimitReader sites in drpchttp", 1, n)
